@@ -255,11 +255,19 @@ def collection_cases(ctx):
         for pat in itertools.product([True, False], repeat=n_):
             d = {'x': [({'n': 'v%d' % i} if p else {'m': i}) for i, p in enumerate(pat)]}
             T.append(('let c = count(x[*].n)\nrule t { %%c == %d }\n' % sum(pat), 'PASS', d))
-    ops = [{'op': 'eval', 'rules': r, 'data': json.dumps(d), 'loader': 'json'} for r, _, d in T]
+    # json_parse(JSON text of D) == D on every JSON number spelling (sign, zero, negative zero, fraction, exponent in both cases, the
+    # i64 bounds), alone, in a list, in a struct, nested - D as the validate loader reads it (the raw text is the data file)
+    class Raw(str):
+        pass
+    for num in ['-0', '0', '-0.0', '0.0', '1e2', '1E2', '1e+2', '10', '-1', '1.0', '0.1', '1.5e-3', '9223372036854775807', '-9223372036854775808', '100', '-12', '2.50']:
+        for shape in ('%s', '[%s]', '{"n": %s}', '[1, {"a": [%s, "x"]}]'):
+            j = shape % num
+            T.append(('let p = json_parse(s)\nrule t { %p == d }\nrule u { d == %p }\n', 'PASS', Raw('{"s": %s, "d": %s}' % (json.dumps(j), j))))
+    ops = [({'op': 'eval', 'rules': r, 'data': str(d), 'loader': 'cli'} if isinstance(d, Raw) else {'op': 'eval', 'rules': r, 'data': json.dumps(d), 'loader': 'json'}) for r, _, d in T]
     res = impl.run_ops_parallel(ops, ctx.wd, 'c18coll')
     n = 0
     for (rules, want, doc_), r in zip(T, res):
-        info = {'class': 'function-collection', 'rules': rules, 'data': json.dumps(doc_)}
+        info = {'class': 'function-collection', 'rules': rules, 'data': str(doc_) if isinstance(doc_, Raw) else json.dumps(doc_)}
         d = r.get('res')
         if 'panic' in r or 'abort' in r or not isinstance(d, dict):
             ctx.failing('a function program crashes: %s' % str(r)[:150], info, found=True)
